@@ -48,6 +48,7 @@ func c06Scenarios() []c06Scenario {
 		{"cmpooo/q-full", "cmpooo", [][2]int64{full}, 0},
 		{"compact/q-full", "compact", [][2]int64{full}, 0},
 		{"cmphead/2q", "cmphead", [][2]int64{full, {0, 120}}, 0},
+		{"cmphead/q-old-ooo", "cmphead", [][2]int64{{0, 425}}, 0},
 		{"cmpblocks/q-full", "cmpblocks", [][2]int64{full}, 4},
 	}
 }
@@ -57,9 +58,15 @@ var c06Data = map[string][]int64{ // in-order timestamps per series; value = flo
 	"s2": {20, 120, 220, 320, 420},
 }
 var c06OOO = map[string][]int64{ // appended after the in-order data (window 50 below 460)
-	"s1": {415, 430},
-	"s2": {412},
+	// s1 (out-of-order chunk capacity 4): first chunk 440..443, second chunk holds OLDER data
+	// 420..423, the newest out-of-order sample 455 stays in the in-memory chunk
+	"s1": {440, 441, 442, 443, 420, 421, 422, 423, 455},
+	"s2": {450},
 }
+
+// appended last: moves the head max time on, so that headMaxt - window no longer bounds the
+// out-of-order data from below
+var c06Late = map[string][]int64{"s1": {620}}
 
 type c06Obs struct {
 	dir      string
@@ -111,6 +118,11 @@ func c06Setup(sc c06Scenario, obs *c06Obs) {
 		app(x.sk, x.t)
 	}
 	for sk, ts := range c06OOO {
+		for _, t := range ts {
+			app(sk, t)
+		}
+	}
+	for sk, ts := range c06Late {
 		for _, t := range ts {
 			app(sk, t)
 		}
@@ -279,6 +291,9 @@ func TestVerifC06(t *testing.T) {
 		for i := 0; i < 2; i++ {
 			tr, obs := runOne(sc, rp.Choices)
 			sig, msg := c06Eval(sc, tr, obs)
+			if i == 0 {
+				t.Logf("replay: points=%d fail=%q results=%v expected=%v minOOO=%d maxOOO=%d", len(tr.Points), tr.Fail, obs.results, obs.expected, obs.db.Head().MinOOOTime(), obs.db.Head().MaxOOOTime())
+			}
 			c06Cleanup(obs)
 			sigs = append(sigs, sig)
 			if i == 1 && sig != "" {
